@@ -67,6 +67,7 @@ type Frame struct {
 }
 
 type Exec struct {
+	retGhosts  map[string]EV
 	tagTypes   map[string]types.Type
 	implIfaces map[string]types.Type
 	prog           *Program
@@ -1436,7 +1437,8 @@ func (x *Exec) step(fr *Frame, st *State, ins ssa.Instruction) bool {
 		fr.env[v] = x.symbolic(st, v.Type(), "lookup", false, 0)
 	case *ssa.Range, *ssa.Next:
 		x.warn("range over map/string havocked")
-		fr.env[v.(ssa.Value)] = x.symbolic(st, v.(ssa.Value).Type(), "range", false, 0)
+		// what the iteration yields is arbitrary pre-existing state (keys / values are not fresh objects)
+		fr.env[v.(ssa.Value)] = x.symbolic(st, v.(ssa.Value).Type(), "range", true, 0)
 	case *ssa.Send:
 		x.warn("channel send ignored")
 	default:
